@@ -154,6 +154,7 @@ func TestC06(t *testing.T) {
 		// beyond the exhaustive alphabet: a fourth flow that is only ready once both of its nodes reported
 		// (a held flow that is waiting must be scheduled like any other)
 		c := aggh.XCase{ActiveSec: to[0], InactiveSec: to[1], Flows: append(flows(), aggh.FlowDef{Src: "10.0.0.9", Dst: "10.0.1.9", SPort: 1009, DPort: 80, Proto: 6, Kind: aggh.KindInterNode})}
+		c.NoAggregation = rapid.IntRange(0, 7).Draw(t, "no_aggregation") == 0
 		for n := rapid.IntRange(2, 80).Draw(t, "n"); n > 0; n-- {
 			switch k := rapid.IntRange(0, 9).Draw(t, "op"); {
 			case k <= 3:
